@@ -53,7 +53,7 @@ pub fn run(args: &[String]) {
     let millis: u64 = args.get(1).map(|s| s.parse().unwrap()).unwrap_or(2000);
     let seed: u64 = args.get(2).map(|s| s.parse().unwrap()).unwrap_or(1);
     crate::sched::install_panic_hook();
-    const KEYS: u64 = 3;
+    const KEYS: u64 = 4;
 
     let ctl = Controller::new();
     let clock = Arc::new(AtomicU64::new(1_000_000_000_000));
@@ -109,8 +109,12 @@ pub fn run(args: &[String]) {
                 let v = rng.next() % 1000;
                 let op = rng.below(10);
                 let attempt = std::panic::catch_unwind(std::panic::AssertUnwindSafe(|| match op {
-                    0 | 1 | 2 => cache.put_with_weight_and_ttl(SlowKey(k), v, 30 + rng.below(10) as i64, Duration::from_millis(250 + rng.below(750))).ok(),
-                    3 => cache.put_with_weight(SlowKey(k), v, 5 + rng.below(10) as i64).ok(),
+                    0 | 1 | 2 => {
+                        // light, medium and heavy keys: a heavy put may have to evict everything it can see
+                        let w = match rng.below(4) { 0 => 5 + rng.below(10), 1 | 2 => 30 + rng.below(10), _ => 60 + rng.below(41) } as i64;
+                        cache.put_with_weight_and_ttl(SlowKey(k), v, w, Duration::from_millis(250 + rng.below(750))).ok()
+                    }
+                    3 => cache.put_with_weight(SlowKey(k), v, match rng.below(3) { 0 => 5 + rng.below(10), 1 => 30 + rng.below(10), _ => 60 + rng.below(41) } as i64).ok(),
                     4 | 5 | 6 => cache.delete(SlowKey(k)).ok(),
                     7 => { let _ = cache.get_ref(&SlowKey(k)).map(|r| *r.value().value_ref()); None }
                     _ => { let _ = cache.get(&SlowKey(k)); None }
